@@ -24,7 +24,7 @@ Dial == /\ R.e = "dial"
         /\ running' = [running EXCEPT ![R.p] = 1] /\ started' = [started EXCEPT ![R.p] = @ + 1]
         /\ UNCHANGED lim
 DialRes == /\ R.e = "dialres" /\ running' = [running EXCEPT ![R.p] = 0] /\ UNCHANGED <<lim, started>>
-Other == /\ R.e \in {"conn", "close", "req", "probe_req", "probe_ok", "probe_err"}
+Other == /\ R.e \in {"conn", "close", "outconn", "req", "probe_req", "probe_ok", "probe_err"}
          /\ UNCHANGED <<lim, running, started>>
 Next == l <= NRec /\ l' = l + 1 /\ (Reset \/ Dial \/ DialRes \/ Other)
 Spec == Init /\ [][Next]_vars
